@@ -22,4 +22,6 @@ const (
 const (
 	// MaxBulkLength is the maximum length of a bulk string (the proto-max-bulk-len default of Redis).
 	MaxBulkLength = 512 * 1024 * 1024
+	// MaxArraySize is the maximum number of elements of an array (the multibulk limit of Redis).
+	MaxArraySize = 1024 * 1024
 )
